@@ -17,8 +17,8 @@
  *
  * Determinism: liblcb leaves bn_t digits above `digits` uninitialised by design and (defects found
  * by this check) sometimes reads uninitialised stack memory.  So that a case behaves the same in the
- * sharded run and in the one-case replay, every operand is filled with 0xA5 before it is initialised
- * and the stack below the call is filled with 0xA5 before every library call (paint_*()); the call
+ * sharded run and in the one-case replay, every operand is filled with C02_FILL before it is initialised
+ * and the stack below the call is filled with C02_FILL before every library call (paint_*()); the call
  * itself sits in a noinline wrapper so that the callee frames start inside the painted area.
  */
 #include <sys/param.h>
@@ -37,6 +37,14 @@
 #endif
 #ifndef C02_REAL_MASK
 #define C02_REAL_MASK 0xFFFFFFFFu
+#endif
+/* The fill byte: non-zero, odd, high bit set (so garbage looks like a big odd number / a huge
+ * capacity).  0xF1 rather than e.g. 0xA5 for a practical reason: with garbage = 5 (mod 8) the
+ * uninitialised read in bn_calc_jsf() (zero scalar) never terminates and writes through the stack,
+ * the process dies and the driver would have to resume thousands of times; with 1 (mod 8) the same
+ * defect shows as a wrong point and the exploration goes on.  repro/jsf_zero_scalar.c shows both. */
+#ifndef C02_FILL
+#define C02_FILL	0xF1
 #endif
 #define T_ADD	1
 #define T_UNK	2
@@ -81,6 +89,23 @@ names_init(void) {
 	snprintf(CFG_TEXT, sizeof(CFG_TEXT), "digit=%d fxp=%s/w%d unk=%s/w%d twin=%s", (int)BN_DIGIT_BIT_CNT,
 	    ALG_NAME(EC_PF_FXP_MULT_ALGO), (int)EC_PF_FXP_MULT_WIN_BITS, ALG_NAME(EC_PF_UNKPT_MULT_ALGO),
 	    (int)EC_PF_UNKPT_MULT_WIN_BITS, TWIN_NAME(EC_PF_TWIN_MULT_ALGO));
+}
+
+/* Input class of the running case, appended to the clause name so that findings with different
+ * preconditions are keyed apart: a zero scalar, or a scalar longer than the curve size m (legal: the
+ * order n of secp160k1/r1/r2 and secp224k1 has m+1 bits, so n-1 and n are such scalars). */
+static const char *CASE_TAG = "";
+static char CLAUSE_BUF[96];
+static const char *
+clause(const char *base) {
+	if (0 == CASE_TAG[0])
+		return (base);
+	snprintf(CLAUSE_BUF, sizeof(CLAUSE_BUF), "%s%s", base, CASE_TAG);
+	return (CLAUSE_BUF);
+}
+static void
+case_tag_scalars(int zero, int wide) {
+	CASE_TAG = zero ? "[scalar=0]" : (wide ? "[scalar>m bits]" : "");
 }
 
 /* ------------------------------------------------------------------ native oracle (tiny curves) */
@@ -221,7 +246,7 @@ static ec_curve_t *CURVE;		/* heap: redzones around the (large) precomputed tabl
 static void
 bn_set_u64(bn_p bn, size_t bits, uint64_t v) {
 	size_t i;
-	memset(bn, 0xA5, sizeof(*bn));	/* only num[0 .. digits) is meaningful in a bn_t */
+	memset(bn, C02_FILL, sizeof(*bn));	/* only num[0 .. digits) is meaningful in a bn_t */
 	bn_init(bn, bits);
 	for (i = 0; 0 != v && i < bn->count; i ++) {
 		bn->num[i] = (bn_digit_t)v;
@@ -250,7 +275,7 @@ bn_get_u64(bn_p bn, int *ovf) {
 }
 static void
 pt_set(ec_point_p P, size_t bits, np_t v) {
-	memset(P, 0xA5, sizeof(*P));
+	memset(P, C02_FILL, sizeof(*P));
 	bn_set_u64(&P->x, bits, v.inf ? 0 : v.x);
 	bn_set_u64(&P->y, bits, v.inf ? 0 : v.y);
 	P->infinity = v.inf ? 1 : 0;
@@ -277,13 +302,13 @@ pt_get(ec_point_p P, np_t *v) {
 static void NOINLINE
 paint_small(void) {
 	volatile char pad[PAINT_SMALL];
-	memset((void *)pad, 0xA5, sizeof(pad));
+	memset((void *)pad, C02_FILL, sizeof(pad));
 	__asm__ volatile("" : : "r"(pad) : "memory");
 }
 static void NOINLINE
 paint_deep(void) {
 	volatile char pad[PAINT_DEEP];
-	memset((void *)pad, 0xA5, sizeof(pad));
+	memset((void *)pad, C02_FILL, sizeof(pad));
 	__asm__ volatile("" : : "r"(pad) : "memory");
 }
 /* the calls under test */
@@ -317,17 +342,17 @@ tiny_check(int rc, ec_point_p R, np_t want, int interesting) {
 	int fits;
 
 	if (0 != rc) {
-		vh_fail("rc", "returned %d on valid operands", rc);
+		vh_fail(clause("rc"), "returned %d on valid operands", rc);
 		return;
 	}
 	fits = pt_get(R, &got);
 	if (!fits || !n_on_curve(got)) {
-		vh_fail("off-curve", "result (%u,%u)%s is not a point of the curve; textbook law gives %s(%u,%u)",
+		vh_fail(clause("off-curve"), "result (%u,%u)%s is not a point of the curve; textbook law gives %s(%u,%u)",
 		    got.x, got.y, fits ? "" : " [coordinate wider than 32 bits]", want.inf ? "O " : "", want.x, want.y);
 		return;
 	}
 	if (!n_eq(got, want)) {
-		vh_fail("mismatch", "got %s(%u,%u), textbook law gives %s(%u,%u)",
+		vh_fail(clause("mismatch"), "got %s(%u,%u), textbook law gives %s(%u,%u)",
 		    got.inf ? "O " : "", got.x, got.y, want.inf ? "O " : "", want.x, want.y);
 		return;
 	}
@@ -402,6 +427,7 @@ do_add_pair(np_t P, np_t Q, size_t bits) {
 	int rc;
 
 	cur.P = P; cur.Q = Q; cur.k1 = cur.k2 = 0;
+	CASE_TAG = "";
 	if (vh_begin(TGT_ADD)) {
 		cur.op = "P+Q";
 		pt_set(&a, bits, P); pt_set(&b, bits, Q);
@@ -443,6 +469,7 @@ tiny_add_sub_dbl(int curve_idx) {
 	}
 	for (i = 0; i < GRP_N; i ++) {	/* doubling through one pointer, every point */
 		cur.P = cur.Q = GRP[i]; cur.k1 = cur.k2 = 0;
+		CASE_TAG = "";
 		if (!vh_begin(TGT_DBL))
 			continue;
 		cur.op = "P+P";
@@ -463,6 +490,7 @@ unk_one(np_t P, uint32_t k, const np_t *mult) {
 	if (!vh_begin(TGT_UNK))
 		return;
 	cur.op = "k1*P";
+	case_tag_scalars(0 == k, (k >> TC->m) != 0);
 	pt_set(&p, CURVE->m, P);	/* capacity used by ecdsa_dh() */
 	bn_set_u64(&d, EC_CURVE_CALC_BITS_DBL(CURVE), k);
 	if (comb_eligible(&d)) st_comb_eligible_unk ++;
@@ -522,6 +550,7 @@ bp_one(uint32_t k, const np_t *mult) {
 	if (!vh_begin(TGT_BP))
 		return;
 	cur.op = "k1*G";
+	case_tag_scalars(0 == k, (k >> TC->m) != 0);
 	pt_set(&r, CURVE->m, NP_O);	/* result capacity used by ecdsa_verify_priv_key() */
 	r.infinity = 0;
 	bn_set_u64(&d, EC_CURVE_CALC_BITS_DBL(CURVE), k);
@@ -562,6 +591,7 @@ twin_one(int generic, np_t A, uint32_t k1, np_t Q, uint32_t k2, np_t want) {
 	if (!vh_begin(generic ? TGT_TWIN : TGT_TWINBP))
 		return;
 	cur.op = generic ? "k1*P+k2*Q" : "k1*G+k2*Q";
+	case_tag_scalars((0 == k1 || 0 == k2), ((k1 >> TC->m) != 0 || (k2 >> TC->m) != 0));
 	pt_set(&q, CURVE->m, Q);
 	pt_set(&r, CURVE->m, NP_O);	/* ecdsa_verify(): R has curve->m bits */
 	r.infinity = 0;
@@ -644,6 +674,7 @@ tiny_all(void) {
 		alphabets_build();
 		cur.curve = t->name; cur.P = cur.Q = NP_O; cur.k1 = cur.k2 = 0; cur.op = "setup";
 		c02_tiny_curve_to_str(t, &cs);
+		CASE_TAG = "";
 		owns = vh_begin(TGT_SETUP);	/* every shard builds the curve, one owns the case */
 		paint_deep();
 		rc = call_setup(&cs.str);
@@ -708,7 +739,7 @@ skip0(const char *s) {
 static int
 real_pt_load(ec_point_p P, size_t bits, const char *x, const char *y) {
 	int rc;
-	memset(P, 0xA5, sizeof(*P));
+	memset(P, C02_FILL, sizeof(*P));
 	if (0 != (rc = ec_point_init(P, bits))) return (rc);
 	if ('-' == x[0]) { P->infinity = 1; return (0); }
 	if (0 != (rc = bn_import_be_hex(&P->x, (const uint8_t *)x, strlen(x)))) return (rc);
@@ -717,7 +748,7 @@ real_pt_load(ec_point_p P, size_t bits, const char *x, const char *y) {
 static int
 real_k_load(bn_p k, const char *s) {
 	int rc;
-	memset(k, 0xA5, sizeof(*k));
+	memset(k, C02_FILL, sizeof(*k));
 	if (0 != (rc = bn_init(k, EC_CURVE_CALC_BITS_DBL(CURVE)))) return (rc);
 	return (bn_import_be_hex(k, (const uint8_t *)s, strlen(s)));
 }
@@ -725,16 +756,16 @@ static void
 real_check(int rc, ec_point_p R, const char *wx, const char *wy, int interesting) {
 	char gx[600], gy[600];
 
-	if (0 != rc) { vh_fail("rc", "returned %d on valid operands", rc); return; }
+	if (0 != rc) { vh_fail(clause("rc"), "returned %d on valid operands", rc); return; }
 	if (0 != R->infinity) {
-		if ('-' != wx[0]) vh_fail("mismatch", "got O, textbook law gives (%s,%s)", wx, wy);
+		if ('-' != wx[0]) vh_fail(clause("mismatch"), "got O, textbook law gives (%s,%s)", wx, wy);
 		else { vh_outcome("O", 1); if (interesting) vh_nontrivial(); }
 		return;
 	}
 	bn_hex(&R->x, gx, sizeof(gx)); bn_hex(&R->y, gy, sizeof(gy));
-	if ('-' == wx[0]) { vh_fail("mismatch", "got (%s,%s), textbook law gives O", gx, gy); return; }
+	if ('-' == wx[0]) { vh_fail(clause("mismatch"), "got (%s,%s), textbook law gives O", gx, gy); return; }
 	if (0 != strcmp(gx, skip0(wx)) || 0 != strcmp(gy, skip0(wy))) {
-		vh_fail("mismatch", "got (%s,%s), textbook law gives (%s,%s)", gx, gy, wx, wy);
+		vh_fail(clause("mismatch"), "got (%s,%s), textbook law gives (%s,%s)", gx, gy, wx, wy);
 		return;
 	}
 	vh_outcome(gx, strlen(gx));
@@ -773,6 +804,7 @@ real_all(void) {
 			}
 			cs = &ec_curve_str[idx];
 			snprintf(real_desc, sizeof(real_desc), "%s curve=%s setup", CFG_TEXT, rf[2]);
+			CASE_TAG = "";
 			owns = vh_begin(TGT_SETUP);
 			paint_deep();
 			rc = call_setup(cs);
@@ -815,6 +847,7 @@ real_all(void) {
 				if (!vh_begin(tgt)) break;
 				snprintf(real_desc, sizeof(real_desc), "%s curve=%s %.300s", CFG_TEXT, cs->name, keep);
 				real_desc[strcspn(real_desc, "\n")] = 0;
+				CASE_TAG = "";
 				real_pt_load(&a, bits_dbl, px[ip], py[ip]);
 				real_pt_load(&b, bits_dbl, px[iq], py[iq]);
 				paint_small();
@@ -833,6 +866,7 @@ real_all(void) {
 			real_pt_load(&a, CURVE->m, px[i], py[i]);
 			real_k_load(&k1, rf[2]);
 			if (comb_eligible(&k1)) st_comb_eligible_unk ++;
+			case_tag_scalars(0 == k1.digits, bn_calc_bits(&k1) > CURVE->m);
 			paint_deep();
 			rc = call_unk(&a, &k1);
 			real_check(rc, &a, rf[3], rf[4], (0 != i && k1.digits > 0 && !bn_is_one(&k1)));
@@ -845,6 +879,7 @@ real_all(void) {
 			real_pt_load(&r, CURVE->m, "0", "0");
 			real_k_load(&k1, rf[1]);
 			if (comb_eligible(&k1)) st_comb_eligible_bp ++;
+			case_tag_scalars(0 == k1.digits, bn_calc_bits(&k1) > CURVE->m);
 			paint_small();
 			rc = call_bp(&k1, &r);
 			real_check(rc, &r, rf[2], rf[3], (k1.digits > 0 && !bn_is_one(&k1)));
@@ -858,6 +893,7 @@ real_all(void) {
 			real_pt_load(&b, CURVE->m, px[i], py[i]);
 			real_pt_load(&r, CURVE->m, "0", "0");
 			real_k_load(&k1, rf[1]); real_k_load(&k2, rf[3]);
+			case_tag_scalars((0 == k1.digits || 0 == k2.digits), (bn_calc_bits(&k1) > CURVE->m || bn_calc_bits(&k2) > CURVE->m));
 			paint_deep();
 			rc = call_twin_bp(&k1, &b, &k2, &r);
 			real_check(rc, &r, rf[4], rf[5], (0 != i && k1.digits > 0 && k2.digits > 0));
@@ -872,6 +908,7 @@ real_all(void) {
 			real_pt_load(&b, CURVE->m, px[i], py[i]);
 			real_pt_load(&r, CURVE->m, "0", "0");
 			real_k_load(&k1, rf[2]); real_k_load(&k2, rf[4]);
+			case_tag_scalars((0 == k1.digits || 0 == k2.digits), (bn_calc_bits(&k1) > CURVE->m || bn_calc_bits(&k2) > CURVE->m));
 			paint_deep();
 			rc = call_twin(&a, &k1, &b, &k2, &r);
 			real_check(rc, &r, rf[5], rf[6], (0 != i && k1.digits > 0 && k2.digits > 0));
